@@ -445,6 +445,91 @@ class ClimAdd(Case):
                 yield {"t0": t0, "t1": t1, "v0": v0, "v1": v1, "f0": 2, "f1": -2, "z0": 10, "z1": 0}
 
 
+class ClimAddSpellings(Case):
+    """bounded: absolute time spans given in the spellings pandas.Timestamp accepts (ISO strings with and
+    without zero padding, month names, US style, date / datetime / datetime64 / Timestamp objects, mixed), in
+    both orders: the stored member's span runs from the earlier to the later instant, and climatology_test
+    with that member flags the observations inside the window"""
+
+    is_bounded = True
+    module = "ioos_qc.qartod"
+    function = "ClimatologyConfig.add"
+    default_props = {}
+    props = {"bounded.absolute_span_spellings": ("C08",)}
+
+    def all_props(self):
+        return {"C08"}
+
+    PAIRS = [((2021, 9, 1), (2021, 10, 1)), ((2021, 1, 5), (2021, 1, 20)), ((1999, 12, 31), (2000, 1, 2)), ((2021, 2, 10), (2021, 11, 9))]
+    STYLES = ("iso", "iso-unpadded", "month-name", "us", "date", "datetime64", "timestamp", "mixed")
+
+    @staticmethod
+    def _spell(style, ymd, second=False):
+        import datetime
+
+        import numpy as np
+        import pandas as pd
+
+        y, m, d = ymd
+        if style == "mixed":
+            style = "timestamp" if second else "iso-unpadded"
+        if style == "iso":
+            return "%04d-%02d-%02d" % (y, m, d)
+        if style == "iso-unpadded":
+            return "%d-%d-%d" % (y, m, d)
+        if style == "month-name":
+            return "%s %d %d" % (["Jan", "Feb", "Mar", "Apr", "May", "Jun", "Jul", "Aug", "Sep", "Oct", "Nov", "Dec"][m - 1], d, y)
+        if style == "us":
+            return "%d/%d/%d" % (m, d, y)
+        if style == "date":
+            return datetime.datetime(y, m, d)
+        if style == "datetime64":
+            return np.datetime64("%04d-%02d-%02d" % (y, m, d))
+        return pd.Timestamp(year=y, month=m, day=d)
+
+    def one(self, values):
+        import warnings
+
+        import numpy as np
+        import pandas as pd
+
+        from pyvc import replay
+
+        q = replay.real_module("ioos_qc.qartod")
+        a, b = tuple(values["a"]), tuple(values["b"])
+        lo, hi = (a, b) if a <= b else (b, a)
+        tlo, thi = pd.Timestamp(year=lo[0], month=lo[1], day=lo[2]), pd.Timestamp(year=hi[0], month=hi[1], day=hi[2])
+        sa, sb = self._spell(values["style"], a), self._spell(values["style"], b, second=True)
+        try:
+            with warnings.catch_warnings():
+                warnings.simplefilter("ignore")
+                cfg = q.ClimatologyConfig()
+                cfg.add(tspan=(sa, sb) if values["seq"] == "tuple" else [sa, sb], vspan=(10, 20))
+                m = cfg.members[0]
+                if pd.Timestamp(m.tspan.minv) != tlo or pd.Timestamp(m.tspan.maxv) != thi:
+                    return "tspan=(%r, %r): stored span is (%s, %s), the instants are (%s, %s)" % (sa, sb, m.tspan.minv, m.tspan.maxv, tlo, thi)
+                mid = tlo + (thi - tlo) / 2
+                times = np.array([tlo - pd.Timedelta(days=1), tlo, mid, thi, thi + pd.Timedelta(days=1)], dtype="datetime64[ns]")
+                fl = q.climatology_test(cfg, np.array([15.0, 15.0, 30.0, 15.0, 15.0]), times, np.zeros(5))
+                got = np.ma.filled(np.ma.masked_array(fl), 255).astype(int).tolist()
+                if got != [2, 1, 3, 1, 2]:
+                    return "tspan=(%r, %r): climatology_test flags %s, the window rule gives [2, 1, 3, 1, 2]" % (sa, sb, got)
+        except Exception as ex:  # noqa: BLE001
+            return "tspan=(%r, %r): raised %r" % (sa, sb, ex)
+        return None
+
+    def bounded_checks(self, tier, rng):
+        for a, b in self.PAIRS:
+            for x, y in ((a, b), (b, a)):
+                for style in self.STYLES:
+                    for seq in ("tuple", "list"):
+                        v = {"a": list(x), "b": list(y), "style": style, "seq": seq}
+                        yield ("spelling", "spelling", v, (lambda v=v: self.one(v)))
+
+    def replay_bounded(self, label, values):
+        return self.one(values)
+
+
 def _num(x):
     if isinstance(x, float):
         return alg.conc(x)
@@ -460,4 +545,5 @@ def add_cases():
     cs.append(ClimAdd(period="month", hasz=True, hasf=True, via="convert"))
     cs.append(ClimAdd(period=None, hasz=False, hasf=False, via="convert"))
     cs.append(ClimAdd(period="bogus", hasz=False, hasf=False, via="add"))
+    cs.append(ClimAddSpellings())
     return cs
